@@ -6,6 +6,7 @@ import (
 	"fmt"
 	"os"
 	"os/exec"
+	"path/filepath"
 	"runtime"
 	"strings"
 	"sync"
@@ -26,6 +27,8 @@ import (
 //	{"op":"setconst","name":"K","val":5} {"op":"getconst","name":"K"} {"op":"global","name":"g"}
 //	{"op":"setfile","name":"/x/a.php"} {"op":"getfile","name":"/x/a.php"}
 //	{"op":"depth"}  EnterCall+LeaveCall   {"op":"handler"} Set/GetExceptionHandler   (scalar state, stress only)
+//	{"op":"goc"|"goi"|"pkg","name":"App\\P"}  GetOrLoadClass / GetOrLoadInterface / LoadPkg with autoload from the
+//	    configuration's "autoload" files (namespace App): D = 1000+index of the file the definition came from
 type Op struct {
 	Op   string `json:"op"`
 	Kind string `json:"kind,omitempty"`
@@ -47,7 +50,53 @@ func newVM() *ort.VM {
 	p := parser.NewParser()
 	vm := ort.NewVM(p).(*ort.VM)
 	vm.SetThrowControl(func(acl data.Control) {})
+	if autoDir != "" {
+		vm.AddNamespace("App", autoDir)
+	}
 	return vm
+}
+
+// autoload files of the current configuration: <dir>/<Name>.php declaring class or interface App\<Name>
+var (
+	autoDir   string
+	autoFiles = map[string]int{}
+)
+
+type AutoFile struct {
+	Name string `json:"name"`
+	Kind string `json:"kind"` // "c" class, "i" interface
+}
+
+func setupAutoload(files []AutoFile) {
+	if autoDir != "" {
+		os.RemoveAll(autoDir)
+		autoDir = ""
+	}
+	autoFiles = map[string]int{}
+	if len(files) == 0 {
+		return
+	}
+	dir, err := os.MkdirTemp("", "c10-")
+	if err != nil {
+		return
+	}
+	dir, _ = filepath.EvalSymlinks(dir)
+	for i, f := range files {
+		body := "<?php\nnamespace App;\n"
+		// a body large enough for the load to take a while: the window between "file marked loaded" and
+		// "class registered" is what concurrent autoloads fall into
+		for k := 0; k < 60; k++ {
+			body += fmt.Sprintf("function %s_helper%d() { return %d; }\n", strings.ToLower(f.Name), k, k)
+		}
+		if f.Kind == "i" {
+			body += "interface " + f.Name + " {}\n"
+		} else {
+			body += "class " + f.Name + " {}\n"
+		}
+		os.WriteFile(filepath.Join(dir, f.Name+".php"), []byte(body), 0o644)
+		autoFiles[f.Name+".php"] = 1000 + i
+	}
+	autoDir = dir
 }
 
 func srcID(from data.From) int {
@@ -55,6 +104,9 @@ func srcID(from data.From) int {
 		return -3
 	}
 	s := from.GetSource()
+	if id, ok := autoFiles[filepath.Base(s)]; ok && autoDir != "" && strings.HasPrefix(s, autoDir) {
+		return id
+	}
 	var n int
 	if _, err := fmt.Sscanf(s, "d%d.php", &n); err == nil {
 		return n
@@ -123,6 +175,32 @@ func doOp(vm *ort.VM, o Op) (res Res) {
 		if vm.GetPhpFileCache(o.Name) {
 			res.D = 1
 		}
+	case "goc":
+		c, acl := vm.GetOrLoadClass(o.Name)
+		if acl != nil {
+			res.R = 1
+		} else if c != nil {
+			res.D = srcID(c.GetFrom())
+		}
+	case "goi":
+		c, acl := vm.GetOrLoadInterface(o.Name)
+		if acl != nil {
+			res.R = 1
+		} else if c != nil {
+			res.D = srcID(c.GetFrom())
+		}
+	case "pkg":
+		c, acl := vm.LoadPkg(o.Name)
+		if acl != nil {
+			res.R = 1
+		} else if c != nil {
+			switch x := c.(type) {
+			case data.ClassStmt:
+				res.D = srcID(x.GetFrom())
+			case data.InterfaceStmt:
+				res.D = srcID(x.GetFrom())
+			}
+		}
 	case "depth":
 		res.D = vm.EnterCall()
 		vm.LeaveCall()
@@ -171,10 +249,12 @@ func runSeq() {
 
 // ---------------------------------------------------------------- child: one concurrent run in this process
 type Config struct {
+	Autoload   []AutoFile `json:"autoload"`
 	Threads    [][]Op `json:"threads"`
 	GoMaxProcs int    `json:"gomaxprocs"`
 	Stamps     bool   `json:"stamps"` // record invocation/return stamps (adds atomic operations between calls)
 	Repeat     int    `json:"repeat"` // run the same programs on this many fresh VMs (race hunting)
+	KeepAll    bool   `json:"keepall"` // return the results of every repetition
 }
 
 func runOnce(cfg *Config) [][]Res {
@@ -241,15 +321,20 @@ func runChild() {
 		if cfg.GoMaxProcs > 0 {
 			runtime.GOMAXPROCS(cfg.GoMaxProcs)
 		}
+		setupAutoload(cfg.Autoload)
 		rep := cfg.Repeat
 		if rep < 1 {
 			rep = 1
 		}
 		var last [][]Res
+		var all [][][]Res
 		for k := 0; k < rep; k++ {
 			last = runOnce(&cfg)
+			if cfg.KeepAll {
+				all = append(all, last)
+			}
 		}
-		out.Encode(map[string]any{"res": last})
+		out.Encode(map[string]any{"res": last, "all": all})
 	}
 }
 
@@ -306,23 +391,31 @@ func runStress() {
 		if exit != 0 {
 			// keep the part of the report that names the functions involved
 			var keep []string
-			for _, l := range strings.Split(stderr, "\n") {
+			lines := strings.Split(stderr, "\n")
+			for i, l := range lines {
 				if strings.Contains(l, "runtime.(*VM)") || strings.Contains(l, "fatal error") || strings.Contains(l, "DATA RACE") {
 					keep = append(keep, strings.TrimSpace(l))
 				}
-				if len(keep) > 12 {
+				// the function that performs each of the two racing accesses
+				if (strings.HasPrefix(l, "Read at") || strings.HasPrefix(l, "Write at") || strings.HasPrefix(l, "Previous ")) && i+1 < len(lines) {
+					keep = append(keep, "ACCESS "+strings.TrimSpace(lines[i+1]))
+				}
+				if len(keep) > 16 {
 					break
 				}
 			}
 			o["report"] = keep
 		}
 		var results []any
+		var alls []any
 		for _, l := range strings.Split(so.String(), "\n") {
 			var parsed map[string]any
 			if strings.TrimSpace(l) != "" && json.Unmarshal([]byte(l), &parsed) == nil {
 				results = append(results, parsed["res"])
+				alls = append(alls, parsed["all"])
 			}
 		}
+		o["alls"] = alls
 		o["results"] = results // one per completed configuration; the next one (if any) was in flight at death
 		o["n"] = nb
 		out.Encode(o)
